@@ -62,6 +62,10 @@ func GenConfig(rng *rand.Rand, p *Profile) *CaseConfig {
 	if n <= 5 && rng.Intn(12) == 0 {
 		shape = 5 // weights so large that the total exceeds 2^63 (it still fits 64 bits)
 	}
+	zeroes := 0
+	if rng.Intn(5) == 0 {
+		zeroes = 1 + rng.Intn(3)
+	}
 	weightsFor := func() []uint64 {
 		ws := make([]uint64, n)
 		for i := range ws {
@@ -82,6 +86,14 @@ func GenConfig(rng *rand.Rand, p *Profile) *CaseConfig {
 		}
 		if shape == 2 {
 			ws[rng.Intn(n)] = uint64(n/2 + rng.Intn(n))
+		}
+		if zeroes > 0 && n >= 5 {
+			// members without any weight: they hold a seat in the leader rotation and may vote, but add nothing to any threshold
+			for k, i := range rng.Perm(n) {
+				if k < zeroes && k < n-4 {
+					ws[i] = 0
+				}
+			}
 		}
 		return ws
 	}
